@@ -108,12 +108,12 @@ def falsify(res, rnd, n):
         w, k = G.rotvec(rnd, maxangle=2 * math.pi if rnd.random() < 0.25 else math.pi - 1e-6)
         R = m.MatrixExp3(G.hat(w))
         res.evaluations += 1
-        if np.max(np.abs(R.T @ R - I3)) > 1e-9 or abs(np.linalg.det(R) - 1) > 1e-9:
+        if not (np.max(np.abs(R.T @ R - I3)) <= 1e-9) or not (abs(np.linalg.det(R) - 1) <= 1e-9):
             bad('exp3:not-rotation', 'MatrixExp3 is not a proper rotation', {'w': list(w)}, R.tolist())
         th = np.linalg.norm(w)
         if th < math.pi - 1e-7:
             w2 = m.so3ToVec(m.MatrixLog3(R))
-            if np.max(np.abs(w2 - w)) > tol(1.0, th < 2e-6):
+            if not (np.max(np.abs(w2 - w)) <= tol(1.0, th < 2e-6)):
                 bad('log3exp3:' + k, 'log3(exp3(w)) != w below pi', {'w': list(w)}, list(w2))
         # exp(log R) = R on SO(3)
         Rr, kr = G.rotation(rnd)
@@ -121,24 +121,29 @@ def falsify(res, rnd, n):
         br = 'identity' if np.array_equal(so3, np.zeros((3, 3))) else kr
         nb[kr] = nb.get(kr, 0) + 1
         R2 = m.MatrixExp3(so3)
-        if np.max(np.abs(R2 - Rr)) > tol(1.0, kr in BAND):
+        if not (np.max(np.abs(R2 - Rr)) <= tol(1.0, kr in BAND)):
             bad('exp3log3:' + kr, 'exp3(log3(R)) != R on SO(3)', {'R': Rr.tolist()}, R2.tolist())
         # SE(3): exp is rigid, log undoes it, exp(log T) = T
         V, kv = G.twist(rnd, maxangle=math.pi - 1e-6)
         se3 = m.VecTose3(V)
         T = m.MatrixExp6(se3)
-        if (np.max(np.abs(T[:3, :3].T @ T[:3, :3] - I3)) > 1e-9 or abs(np.linalg.det(T[:3, :3]) - 1) > 1e-9
+        if (not (np.max(np.abs(T[:3, :3].T @ T[:3, :3] - I3)) <= 1e-9) or not (abs(np.linalg.det(T[:3, :3]) - 1) <= 1e-9)
                 or not np.array_equal(T[3], [0, 0, 0, 1])):
             bad('exp6:not-rigid', 'MatrixExp6 is not a rigid transform', {'V': list(V)}, T.tolist())
         V2 = m.se3ToVec(m.MatrixLog6(T))
         scale = max(1.0, float(np.max(np.abs(V))))
-        if np.max(np.abs(V2 - V)) > tol(scale, np.linalg.norm(V[:3]) < 2e-6):
+        if not (np.max(np.abs(V2 - V)) <= tol(scale, np.linalg.norm(V[:3]) < 2e-6)):
             bad('log6exp6:' + kv, 'log6(exp6(V)) != V below pi', {'V': list(V)}, list(V2))
         Tp, kp = G.pose(rnd)
         T2 = m.MatrixExp6(m.MatrixLog6(Tp))
         scale = max(1.0, float(np.max(np.abs(Tp))))
-        if np.max(np.abs(T2 - Tp)) > tol(scale, kp in BAND):
+        if not (np.max(np.abs(T2 - Tp)) <= tol(scale, kp in BAND)):
             bad('exp6log6:' + kp, 'exp6(log6(T)) != T on SE(3)', {'T': Tp.tolist()}, T2.tolist())
+        Th = np.eye(4); Th[:3, :3] = G.halfturn(rnd)[0]; Th[:3, 3] = G.translation(rnd)
+        if (Th[0, 0] + Th[1, 1] + Th[2, 2] - 1) / 2.0 <= -1:          # the code's own half-turn branch (a rounded trace above -1 is the known finding)
+            T3 = m.MatrixExp6(m.MatrixLog6(Th))
+            if not (np.max(np.abs(T3 - Th)) <= tol(max(1.0, float(np.max(np.abs(Th)))), False)):
+                bad('exp6log6:halfturn', 'exp6(log6(T)) != T on SE(3)', {'T': Th.tolist()}, T3.tolist())
         # hat / vee
         if not np.array_equal(m.so3ToVec(m.VecToso3(w)), w) or not np.array_equal(m.se3ToVec(m.VecTose3(V)), V):
             bad('hatvee', 'vee(hat(x)) != x', {'w': list(w), 'V': list(V)}, None)
@@ -147,17 +152,17 @@ def falsify(res, rnd, n):
         # group structure of inverse and adjoint
         T1, _ = G.pose(rnd); Tb, _ = G.pose(rnd)
         s1 = max(1.0, float(np.max(np.abs(T1[:3, 3]))), float(np.max(np.abs(Tb[:3, 3]))))
-        if np.max(np.abs(m.TransInv(T1) @ T1 - I4)) > 1e-9 * s1:
+        if not (np.max(np.abs(m.TransInv(T1) @ T1 - I4)) <= 1e-9 * s1):
             bad('transinv', 'inv(T)*T != I', {'T': T1.tolist()}, (m.TransInv(T1) @ T1).tolist())
         A12 = m.Adjoint(np.ascontiguousarray(T1 @ Tb)); A1A2 = m.Adjoint(T1) @ m.Adjoint(Tb)
-        if np.max(np.abs(A12 - A1A2)) > 1e-9 * s1 * s1:
+        if not (np.max(np.abs(A12 - A1A2)) <= 1e-9 * s1 * s1):
             bad('adjoint-mul', 'Ad(T1*T2) != Ad(T1)*Ad(T2)', {'T1': T1.tolist(), 'T2': Tb.tolist()}, A12.tolist())
         Ai = m.Adjoint(m.TransInv(T1))
-        if np.max(np.abs(Ai @ m.Adjoint(T1) - I6)) > 1e-9 * s1 * s1:
+        if not (np.max(np.abs(Ai @ m.Adjoint(T1) - I6)) <= 1e-9 * s1 * s1):
             bad('adjoint-inv', 'Ad(inv T) != inv(Ad T)', {'T': T1.tolist()}, Ai.tolist())
         lhs = T1 @ m.VecTose3(V) @ m.TransInv(T1)
         rhs = m.VecTose3(m.Adjoint(T1) @ V)
-        if np.max(np.abs(lhs - rhs)) > 1e-9 * s1 * max(1.0, float(np.max(np.abs(V)))):
+        if not (np.max(np.abs(lhs - rhs)) <= 1e-9 * s1 * max(1.0, float(np.max(np.abs(V))))):
             bad('conj-hat6', 'T*[V]*inv(T) != [Ad(T)V]', {'T': T1.tolist(), 'V': list(V)}, lhs.tolist())
     res.stats['exp3log3_classes'] = nb
 
